@@ -98,10 +98,20 @@ NEEDS = {
  "C14-m9": ("a settings profile containing None values, stored through a fit (model_dump(exclude_none=True))", "stored settings through a fit for four profiles"),
  "C14-m10": ("option lists of the calendar maps spelled with capitals / blanks (str_to_lower / strip removed from the config)", "option-list spellings in the constructor catalogue"),
  "C16-m9": ("reporting period touching the same calendar month in two years (months counted per (year, month))", "reporting index 'two-januaries' + numeric replay of the uncertainty formula"),
+ "C01-m11": ("custom season map + a season-split model + a prediction frame that already carries the data classes' default season labels", "prediction frames as the data classes hand them over (api round trip)"),
+ "C01-m12": ("reporting temperatures held in an integer column and a sub-model that is not flat", "whole-degree temperatures in an integer column (api round trip)"),
+ "C07-m11": ("a split (weekend, season) whose usable rows all have temperature exactly 0.0", "ndarray-style any()/all() on the symbolic column carrier (the changed code could not be executed symbolically before: harness error, exit 3)"),
+ "C07-m12": ("a reporting day with a finite temperature and no usage", None),
+ "C13-m11": ("weekday/weekend map whose two labels are listed in the other order (options: weekend, weekday)", "route/reversed-options"),
+ "C13-m12": ("two candidate splits whose selection criteria differ by less than 1e-4 (a later candidate must now beat the best by a margin)", None),
+ "C18-m11": ("a DST transition day in a DST-observing zone (hour of day taken as elapsed time since local midnight)", None),
+ "C18-m12": ("the same instants segmented twice in one process, first in another zone (weights memoised by instant)", "weights/*: an earlier call on the same instants in another zone"),
+ "C19-m11": ("a calendar period whose daily predictions sum to a negative number (net-metered customer)", None),
+ "C19-m12": ("a zone that changes its clocks at local midnight on the first of a month (America/Asuncion 2023-10-01, America/Havana 2020-11-01)", "agg|skipped-midnight / agg|repeated-midnight spans"),
  "C16-m10": ("two model objects in one process (one error dict shared through a module constant)", "objects/*"),
 }
 rows = []
-for d in sorted(glob.glob(os.path.join(ROOT, "seeded", "C*-m[4-9]")) + glob.glob(os.path.join(ROOT, "seeded", "C*-m10"))):
+for d in sorted(glob.glob(os.path.join(ROOT, "seeded", "C*-m[4-9]")) + glob.glob(os.path.join(ROOT, "seeded", "C*-m1[0-2]"))):
     sid = os.path.basename(d)
     if sid not in NEEDS:
         continue
